@@ -1512,6 +1512,94 @@ def proj_path(atom):
     return v, tuple(reversed(path))
 
 
+def _leaf_tids(v, out=None):
+    if out is None:
+        out = []
+    if 'a' in v:
+        for x in v['a']:
+            _leaf_tids(x, out)
+    elif 't' in v:
+        out.append(v['t'])
+    elif 'r' in v:
+        _leaf_tids(v['r']['val'], out)
+    elif 'e' in v:
+        for x in v['f']:
+            _leaf_tids(x, out)
+    else:
+        out.append(None)
+    return out
+
+
+def _exact_key(S, tid, memo):
+    """strict_key modulo the neutral elements that are exact in floating point and for integers: x + 0, 0 + x, x - 0"""
+    k = memo.get(tid)
+    if k is not None:
+        return k
+    t = S.terms[tid]
+    is_zero = lambda u: (S.terms[u][0] == 'i' and S.terms[u][1] == '0') or (S.terms[u][0] == 'f' and Conv(S).el(u).is_const() and Conv(S).el(u).const() == 0)
+    if t[0] == 'a' and t[1] == 'add' and len(t[2]) == 2 and (is_zero(t[2][0]) or is_zero(t[2][1])):
+        k = _exact_key(S, t[2][1] if is_zero(t[2][0]) else t[2][0], memo)
+    elif t[0] == 'a' and t[1] == 'sub' and len(t[2]) == 2 and is_zero(t[2][1]):
+        k = _exact_key(S, t[2][0], memo)
+    elif t[0] == 'a':
+        ks = [_exact_key(S, x, memo) for x in t[2]]
+        if t[1] in ('add', 'mul'):
+            ks = sorted(ks, key=repr)
+        k = (t[1],) + tuple(ks)
+    elif t[0] == 'f':
+        k = ('f', t[1])
+    else:
+        k = (t[0], t[1])
+    memo[tid] = k
+    return k
+
+
+def _strict_sum_step(S, cv, v_prev, v_cur, item):
+    """None when every leaf of v_cur is exactly (the matching leaf of v_prev) + (the matching item component); else a description"""
+    tp, tc = _leaf_tids(v_prev), _leaf_tids(v_cur)
+    if len(tp) != len(tc) or len(tc) != len(item) or None in tp or None in tc:
+        return 'shape'
+    memo = {}
+
+    def is_zero(u):
+        t_ = S.terms[u]
+        return (t_[0] == 'i' and t_[1] == '0') or (t_[0] == 'f' and cv.el(u).is_const() and cv.el(u).const() == 0)
+
+    def strip(u):
+        # remove exact neutral layers: x + 0, 0 + x, x - 0
+        while True:
+            t_ = S.terms[u]
+            if t_[0] == 'a' and t_[1] == 'add' and len(t_[2]) == 2 and is_zero(t_[2][0]):
+                u = t_[2][1]
+            elif t_[0] == 'a' and t_[1] in ('add', 'sub') and len(t_[2]) == 2 and is_zero(t_[2][1]):
+                u = t_[2][0]
+            else:
+                return u
+    for i, (a_, c_) in enumerate(zip(tp, tc)):
+        want_item = item[i]
+
+        def is_item(u):
+            u = strip(u)
+            t_ = S.terms[u]
+            if t_[0] == 'a' and t_[1] in ('add', 'sub', 'mul', 'div', 'rem', 'neg'):
+                return False        # an arithmetic expression, whatever it simplifies to over the reals
+            e = cv.el(u)
+            return _single_atom(e) is not None and A.eq(e, want_item)
+        a1, c1 = strip(a_), strip(c_)
+        if is_zero(a1):
+            if not is_item(c1):
+                return 'component %d: %s' % (i, S.show(c_)[:120])
+            continue
+        t = S.terms[c1]
+        if not (t[0] == 'a' and t[1] == 'add' and len(t[2]) == 2):
+            return 'component %d: %s' % (i, S.show(c_)[:120])
+        ka = _exact_key(S, a1, memo)
+        x, y = t[2]
+        if not ((_exact_key(S, x, memo) == ka and is_item(y)) or (_exact_key(S, y, memo) == ka and is_item(x))):
+            return 'component %d: %s' % (i, S.show(c_)[:120])
+    return None
+
+
 def check_accumulate(run, S, name, init_exp, step_exp, fold_step, rule='K7 fold pattern', what='sum', max_iter=5):
     """Sum / Product over an opaque iterator, in either idiom:
     fold idiom  - exactly one Iterator::fold(iter, init, f) with f(acc, item) = step (check_fold);
@@ -1618,6 +1706,15 @@ def check_accumulate(run, S, name, init_exp, step_exp, fold_step, rule='K7 fold 
             break
         exp = step_exp(prev, item)
         ok = all(A.eq(x, y) for x, y in zip(vk, exp))
+        if ok and what == 'sum':
+            # "equals the LEFT FOLD WITH +": one addition of the previous total and the item per component, nothing else - compared
+            # structurally (a + b = b + a, x + 0 = x only), so that a compensated (Kahan) or re-associated summation, which is the
+            # same real number but another floating-point result, is not accepted
+            bad_ = _strict_sum_step(S, cv, chain[k - 1][1]['v'], chain[k][1]['v'], [x for _, x in items])
+            if bad_ is not None:
+                run.ob('%s:step%d:exact' % (key, k), False, rule=rule, expected='component i after %d items = (component i after %d items) + (component i of item %d): a single addition' % (k, k - 1, k),
+                       found=bad_, where=where)
+                ok = False
         run.ob('%s:step%d' % (key, k), ok, rule=rule, expected='after %d items: acc %s item, accumulator on the left' % (k, '+' if what == 'sum' else '*'), found=[A.show(x, 4) for x in vk][:4], where=where)
         allok = allok and ok
         prev = vk
